@@ -446,3 +446,6 @@ def rules(ctx):
     units(ctx)
     amplitude_units(ctx)
     reset_measured(ctx)
+    from . import common_backend as _B
+    _B.polar_pair(ctx, "C06.polar", ("backends/fockbackend/circuit.py",))
+    ctx.floor("C06.polar", 1)
